@@ -10,7 +10,7 @@ import re, time, os, json
 from .. import core, build, lean, unit
 
 PROP = "C16"
-MODULES = ["NngModel.Props.C16", "NngModel.Props.C16Http"]
+MODULES = ["NngModel.Props.C16", "NngModel.Props.C16Http", "NngModel.Props.C16Sha1", "NngModel.Props.C16Upgrade"]
 ALLOC_LIMIT = 1 << 22
 
 # ------------------------------------------------------------------------------------------ WS
@@ -531,9 +531,27 @@ def run(tier, seed, replay=None):
     for tag, payload, no_input in hv:
         v.violation(tag, payload, no_input=no_input)
         found_input = found_input or not no_input
+    # writer side of the HTTP layer (vlib/props/c16_emitwf.py: what the header setters accept is written as ONE head)
+    from . import c16_emitwf
+    ec, ev, ek = c16_emitwf.run_emitwf_part(tier, seed, replay)
+    for tag, payload, no_input in ev:
+        v.violation(tag, payload, no_input=no_input)
+        found_input = found_input or not no_input
+    for t in ek:
+        v.known_finding(t)
+    tot["cases"] += ec["cases"]; tot["spec"] += ec["bad"]
     tot["cases"] += hc["cases"]; tot["ops"] += hc["ops"]; tot["spec"] += hc["spec"] + hc["seg"]
     tot["model"] += hc["model"]; tot["crash"] += hc["crash"]
     hist["http"] = hc["op_hist"]; rvh["http"] = hc["rv_hist"]; samples += hc["samples"]; distinct += hc["distinct"]
+    # SHA-1, ws_make_accept and the opening handshake on both sides (vlib/props/c16_upgrade.py)
+    from . import c16_upgrade
+    uc, uv = c16_upgrade.run_upgrade_part(tier, seed, st, replay)
+    for tag, payload, no_input in uv:
+        v.violation(tag, payload, no_input=no_input)
+        found_input = found_input or not no_input
+    tot["cases"] += uc["cases"]; tot["ops"] += uc["ops"]; tot["spec"] += uc["spec"]
+    tot["model"] += uc["model"]; tot["crash"] += uc["crash"]
+    hist["upgrade"] = uc["op_hist"]; rvh["upgrade"] = uc["rv_hist"]; samples += uc["samples"]; distinct += uc["distinct"]
     if not found_input:
         for s in subs:
             if s.res and s.res.model_mismatch:
@@ -566,6 +584,8 @@ def run(tier, seed, replay=None):
     }
     cov["http_part"] = {k: hc[k] for k in ("streams", "cases", "ops", "bytes", "seg", "spec", "model", "crash", "wall_s")}
     cov["http_rule"] = c16_http.RULE
+    cov["upgrade_part"] = {k: uc.get(k, 0) for k in ("cases", "ops", "spec", "model", "crash", "sha_bytes", "wall_s", "emitted_101_judged", "emitted_101_nonconforming")}
+    cov["upgrade_rule"] = c16_upgrade.RULE
     core.write_evidence(PROP, tier, seed, "proof", cov,
                         ["Model/Ws.lean, Model/HttpChunk.lean, Model/Base64.lean mirror websocket.c, http_chunk.c, base64.c; tie = differential "
                          "execution on the cases above",
